@@ -211,7 +211,8 @@ PROPS = {
     "C08": {"ready": True, "replay": sim_replay,
             "suites": [sim("sim_crash", "C08", dict(p_crash=0.9, nodes=(2, 3), procs=(2, 4), ops=(10, 24)),
                            nontrivial=lambda st: st["crash"] and st["received"],
-                           extra=lambda rng, tier: [(f"cb{i}", sim_suite.gen_crash_burst(rng)) for i in range(150 if tier == "quick" else 3000)])]},
+                           extra=lambda rng, tier: [(f"cb{i}", sim_suite.gen_crash_burst(rng)) for i in range(150 if tier == "quick" else 3000)] +
+                                                   [(f"td{i}", sim_suite.gen_two_down(rng)) for i in range(40 if tier == "quick" else 800)])]},
     "C15": {"ready": True, "replay": auto_replay, "suites": [snapshot_check(walk=0, routes=True, fp=True)]},
     "C17": {"ready": True, "replay": sim_replay,
             "partial": "whole-run invariants are proved for the per-process logs/counters (LogInv) and the global trace (TraceInv: ids, network counters, traffic, single fate exactly for duplication-free sends, at most 3 otherwise); the times recorded in the global trace and in the per-process event logs are theorems (trace_times_sorted, LogTimeInv, step_log_times); the per-copy fate under duplication is judged by the monitor and the bit-exact correspondence",
@@ -241,7 +242,7 @@ PROPS = {
                        lambda v, tier, seed: py_suite.run(v, tier, seed, n_quick=60, n_thorough=800), py_suite.restore_probe]},
     "C10": {"ready": True, "replay": mc_checks.replay, "partial": PARTIAL_D1,
             "suites": [mc("mc_bfs_dfs", dict(depth=(2, 4)), cross=[("dfs", "full"), ("bfs", "full"), ("dfs", "partial"), ("bfs", "partial"), ("dfs", "disabled"), ("bfs", "disabled")],
-                          n_quick=200, extra_gen=mc_checks.gen_payload_twins)]},
+                          n_quick=200, extra_gen=lambda rng, tier: mc_checks.gen_payload_twins(rng, tier) + mc_checks.gen_alt_goals(rng, tier))]},
     "C11": {"ready": True, "replay": auto_replay, "partial": PARTIAL_D1,
             "suites": [mc("mc_cache_modes", dict(record=0.2, identical_msgs=0.5, depth=(2, 4)),
                           cross=[("dfs", "full"), ("dfs", "partial"), ("dfs", "disabled"), ("bfs", "full"), ("bfs", "disabled")],
